@@ -94,11 +94,14 @@ type Exec struct {
 	pin      map[string]string
 	noSummary bool
 	noSummaryFor map[string]bool
+	shared    *sharedState
+	locksHeld int
+	harnessGlobals map[*Cell]bool
 	Effects   func(what, mode string, obj Value)
 }
 
 func NewExec(p *Program, s *Solver, prefix []int) *Exec {
-	return &Exec{P: p, S: s, noSummaryFor: map[string]bool{}, pcSet: map[int]bool{}, pcVars: map[int]bool{}, pcSeen: map[int]bool{}, globals: map[*ssa.Global]*Cell{}, prefix: prefix, counters: map[string]int{},
+	return &Exec{P: p, S: s, noSummaryFor: map[string]bool{}, harnessGlobals: map[*Cell]bool{}, pcSet: map[int]bool{}, pcVars: map[int]bool{}, pcSeen: map[int]bool{}, globals: map[*ssa.Global]*Cell{}, prefix: prefix, counters: map[string]int{},
 		InputLbl: map[int]string{}, Reached: map[string]int{}, Funcs: map[*ssa.Function]bool{}, Unwind: 4096, MaxSteps: 20000000,
 		ext: map[string]interface{}{}}
 }
@@ -394,6 +397,31 @@ func (ex *Exec) global(g *ssa.Global) *Cell {
 		c = &Cell{V: &Poison{Name: g.String()}}
 	}
 	ex.globals[g] = c
+	if g.Pkg != nil && strings.HasPrefix(g.Pkg.Pkg.Path(), HarnessMod) {
+		// model-internal state, not library state (including the element cells of arrays / structs)
+		var mark func(v Value)
+		mark = func(v Value) {
+			switch x := v.(type) {
+			case *Cell:
+				if x != nil && !ex.harnessGlobals[x] {
+					ex.harnessGlobals[x] = true
+					mark(x.V)
+				}
+			case *Struct:
+				for _, f := range x.F {
+					mark(f)
+				}
+			case *Array:
+				for _, e := range x.E {
+					mark(e)
+				}
+			}
+		}
+		mark(c)
+	}
+	if ex.shared != nil && ex.shared.on {
+		ex.markShared([]Value{c}) // package-level variables always outlive the request
+	}
 	return c
 }
 
@@ -634,6 +662,7 @@ func (ex *Exec) runBlock(fr *frame, b *ssa.BasicBlock) *ssa.BasicBlock {
 			if m == nil {
 				ex.goPanic(fr.fn.String(), "assignment to entry in nil map")
 			}
+			ex.sharedMapWrite(fr, m)
 			ex.mapUpdate(m, ex.get(fr, in.Key), ex.get(fr, in.Value))
 		case *ssa.Range:
 			fr.env[in] = ex.rangeIter(fr, in)
@@ -761,9 +790,11 @@ func (ex *Exec) store(fr *frame, addr Value, v Value) {
 		if p == nil {
 			ex.goPanic(fr.fn.String(), "runtime error: invalid memory address or nil pointer dereference")
 		}
+		ex.sharedCellWrite(fr, p)
 		storeInto(p, v)
 		return
 	case *BytePtr:
+		ex.sharedBytesWrite(fr, p.A)
 		b := v.(*Term)
 		p.A.S = writeRegion(p.A.S, p.Idx, IntC(1), StrFromByte(b))
 		return
